@@ -193,6 +193,13 @@ class C19(Prop):
             raise X.TieBroken("const:async_worker_join", "poll sleep / elapsed step of the timed join not recognised")
         b = lambda v: "true" if v else "false"
         more = self._gen_round5(body_of, pos, b)
+        # every Boolean shape the translator found NOT to hold, with its description: reported by extra_checks as a
+        # tie-broken problem that names the site (the Lean bridging lemma fails as well, but names only its module)
+        self._shape_failures = []
+        for i, l in enumerate(more):
+            m = re.match(r"def (\w+) : Bool := false", l)
+            if m:
+                self._shape_failures.append((m.group(1), more[i - 1] if i else ""))
         from props import c19_extract
         more.append(c19_extract.gen_locks(bdir))
         return "\n".join(more + [
@@ -214,6 +221,35 @@ class C19(Prop):
             "def wrapperStoresBeforeProc : List Nat := " + fmt(wb),
             "/-- C: values stored into `worker->state` in `worker_thread_proc` after `worker->proc(...)` returned -/",
             "def wrapperStoresAfterProc : List Nat := " + fmt(wa)])
+
+    def _direct_flag_accesses(self):
+        """(file, line) of every mention of heart_beat_flag in the driver sources that is neither its definition, its
+        extern declaration nor one of the two accessor macros"""
+        import re
+        bad = []
+        for top in ("src", "lib"):
+            for root, _, files in os.walk(os.path.join(E.REPO, top)):
+                for fn in files:
+                    if not fn.endswith((".c", ".h", ".cpp", ".hpp")):
+                        continue
+                    path = os.path.join(root, fn)
+                    try:
+                        txt = open(path, errors="replace").read()
+                    except OSError:
+                        continue
+                    if "heart_beat_flag" not in txt:
+                        continue
+                    txt = re.sub(r"/\*.*?\*/", lambda m: re.sub(r"[^\n]", " ", m.group(0)), txt, flags=re.S)
+                    for no, line in enumerate(txt.splitlines(), 1):
+                        line = re.sub(r"//.*", "", line)
+                        if not re.search(r"\bheart_beat_flag\b", line):
+                            continue
+                        if re.match(r"\s*(extern\s+)?(volatile\s+)?int\s+heart_beat_flag\s*(=\s*0\s*)?;", line):
+                            continue
+                        if re.match(r"\s*#\s*define\s+(SET_)?HEART_BEAT_FLAG\(", line):
+                            continue
+                        bad.append("%s:%d" % (os.path.relpath(path, E.REPO), no))
+        return bad
 
     def _gen_round5(self, body_of, pos, b):
         """translator, extension round: the poll back end, the hand-copied tests of async_queue, the loops of the
@@ -361,7 +397,8 @@ class C19(Prop):
                 "/-- C: a select time-out (`ret == 0`) and EINTR `continue` (back to the stop test); errors and EOF `break` -/",
                 "def consoleLoopExits : Bool := " + b(
                     has(cp, r"ret\s*==\s*0\s*\)\s*\{\s*continue\s*;") and has(cp, r"bytes_read\s*==\s*0\s*\)\s*\{[^}]*break\s*;")
-                    and len(re.findall(r"\bbreak\s*;", cp)) == 3 and len(re.findall(r"\bcontinue\s*;", cp)) == 3),
+                    and has(cp, r"ret\s*<\s*0\s*\)\s*\{\s*if\s*\(\s*errno\s*==\s*EINTR\s*\)\s*\{\s*continue\s*;\s*\}[^}]*break\s*;")
+                    and has(cp, r"bytes_read\s*<\s*0\s*\)\s*\{\s*if\s*\([^)]*EINTR[^)]*\)\s*\{\s*continue\s*;\s*\}[^}]*break\s*;")),
                 "/-- C: `console_worker_shutdown` = `async_worker_signal_stop` then `async_worker_join(worker, timeout_ms)` -/",
                 "def consoleShutdownOrder : Bool := " + b(ordered(cs, [r"async_worker_signal_stop\s*\(", r"return\s+async_worker_join\s*\("]))]
         # -- timer thread --------------------------------------------------------------------------------------
@@ -384,9 +421,14 @@ class C19(Prop):
         ch = body_of(be, "call_heart_beat", "hb:call_heart_beat")
         acc = has(be, r"#\s*define\s+HEART_BEAT_FLAG\(\)\s+platform_atomic_load_int\s*\(\s*&heart_beat_flag\s*\)") and \
             has(be, r"#\s*define\s+SET_HEART_BEAT_FLAG\(v\)\s+platform_atomic_store_int\s*\(\s*&heart_beat_flag") and \
-            len(re.findall(r"\bheart_beat_flag\b", re.sub(r"//[^\n]*", " ", re.sub(r"/\*.*?\*/", " ", be, flags=re.S)))) == 3
-        first_stmt = re.search(r"^\s*object_t\s*\*\s*ob\s*;\s*SET_HEART_BEAT_FLAG\s*\(\s*0\s*\)\s*;", ch) is not None
-        out += ["/-- C: heart_beat_flag is touched only through the atomic accessors (definition + the two macros are its only mentions) -/",
+            not self._direct_flag_accesses()
+        # first statement behind the local declarations (however many there are)
+        chs = ch
+        decl = re.compile(r"^\s*(?:static\s+|const\s+|register\s+)*[A-Za-z_]\w*(?:\s+[A-Za-z_]\w*)*[\s\*]+[A-Za-z_]\w*\s*(?:=[^;]*)?;")
+        while decl.match(chs):
+            chs = chs[decl.match(chs).end():]
+        first_stmt = re.match(r"\s*SET_HEART_BEAT_FLAG\s*\(\s*0\s*\)\s*;", chs) is not None
+        out += ["/-- C: heart_beat_flag is touched only through the atomic accessors: in src/ and lib/ the identifier occurs only in its definition, its `extern` declaration and the two accessor macros -/",
                 "def hbFlagAtomicOnly : Bool := " + b(acc),
                 "/-- C: `SET_HEART_BEAT_FLAG(0)` is the first statement of call_heart_beat (before the round), and the round is `while (!HEART_BEAT_FLAG())` -/",
                 "def hbClearsFlagFirst : Bool := " + b(first_stmt and has(ch, r"while\s*\(\s*!HEART_BEAT_FLAG\s*\(\s*\)\s*\)")),
@@ -477,10 +519,32 @@ class C19(Prop):
         hb = [c for c in cases if "#tsan-hb" in c.lines]
         res = {}
         tsan_env = {"TSAN_OPTIONS": "halt_on_error=0:exitcode=66:report_thread_leaks=0:second_deadlock_stack=1"}
+        self._harness_problems = getattr(self, "_harness_problems", {})
+
+        def guarded(name, src, cs, fn):
+            """the unit-style harnesses lean on names that belong to OTHER properties' code (statics of src/backend.c,
+            the common harness, the base mudlib): when one of them no longer builds, that is reported as a broken tie
+            naming the harness, and its cases fall back to the model's lines instead of crashing the whole check"""
+            try:
+                return fn()
+            except E.BuildError as e:
+                errs = [l for l in str(e).splitlines() if "error" in l][:3]
+                self._harness_problems[name] = {"kind": "tie-broken", "name": "harness:" + name,
+                                                "detail": "%s no longer builds against the source: %s" % (src, " | ".join(errs))}
+                return {k: self.canon(v) for k, v in self.run_model(ctx, cs).items()}
         if be:
-            res.update(self._run_be(ctx, be, tsan_env))
+            res.update(guarded("c19be", "harness/c19/c19be.c", be, lambda: self._run_be(ctx, be, tsan_env)))
         if hb:
-            res.update(self._run(self.hb(), hb, ctx.rundir, tsan_env))
+            r = guarded("c19hb", "harness/c19/c19hb.c", hb, lambda: self._run(self.hb(), hb, ctx.rundir, tsan_env))
+            for k, v in r.items():
+                if "hbowed not-injected" in v:
+                    # call_heart_beat no longer reads the clock through time(): the injection point is gone
+                    self._harness_problems["hbowed"] = {
+                        "kind": "tie-broken", "name": "harness:hbowed",
+                        "detail": "call_heart_beat() no longer calls time() behind its first statement: the tick "
+                                  "cannot be injected into the round (harness/c19/c19hb.c must be adapted)"}
+                    r[k] = [("hbowed kept" if l == "hbowed not-injected" else l) for l in v]
+            res.update(r)
         if plain:
             res.update(self._run(self.exe, plain, ctx.rundir,
                                  {"ASAN_OPTIONS": "detect_leaks=0:abort_on_error=0", "UBSAN_OPTIONS": "print_stacktrace=0"}))
@@ -523,7 +587,14 @@ class C19(Prop):
                                     "wread", "post 1 7 4", "wend", "wait 8", "wait 8"])
         mk("split-wait-misuse", ["wread", "wend", "wbegin 4", "post 1 1 1", "wbegin 4", "wend", "wait 4", "wbegin 4", "wait 4",
                                  "wend", "wread", "wread", "wend", "wait 4"])
-        mk("ring-full", ["post 1 5 %d" % i for i in range(1026)] + ["wait 64"] * 17 + ["post 1 6 6", "wait 64"])
+        # ring capacity from the source (a harmless change of the constant must keep this case AT the boundary)
+        try:
+            import re
+            rs = int(re.search(r"#\s*define\s+COMPLETION_RING_SIZE\s+(\d+)",
+                               open(os.path.join(E.REPO, "lib/async/async_runtime_epoll.c")).read()).group(1))
+        except Exception:
+            rs = 1024
+        mk("ring-full", ["post 1 5 %d" % i for i in range(rs + 2)] + ["wait 64"] * ((rs + 63) // 64 + 1) + ["post 1 6 6", "wait 64"])
         # more completions than MAX_EVENTS (64, the size of the epoll_wait array) in ONE wait: the copy-out loop is
         # bounded by the caller's max_events, not by the clamp
         mk("wait-beyond-max-events", ["post %d 9 %d" % (1 + i % 3, i) for i in range(150)] + ["wait 200", "wait 200",
@@ -741,6 +812,12 @@ class C19(Prop):
     def extra_checks(self, ctx, tier, rng):
         """the oracle accepts every trace of the model: proved (NV.C19.model_satisfies_spec); this re-tests the COMPILED
         driver (parser, render/parseEv round trip) on fresh schedules"""
+        probs = [{"kind": "tie-broken", "name": "shape:" + n,
+                  "detail": "the source no longer has the shape the model mirrors: " + d.strip("/- ")}
+                 for n, d in getattr(self, "_shape_failures", [])]
+        probs += list(getattr(self, "_harness_problems", {}).values())
+        if probs:
+            return probs
         cases = self.generate(rng, 60 if tier == "quick" else 600, "model-only")
         model = {k: self.canon(v) for k, v in self.run_model(ctx, cases).items()}
         jd = self.run_judge(ctx, cases, model)
